@@ -5,7 +5,7 @@ R2: extension tables (degrees, is_supported vs. unimplemented mul).
 R3: every decoder of a field element rejects values >= MODULUS before constructing the element,
     or delegates to a decoder that does; encodings are little-endian.
 """
-from .. import ir, numth
+from .. import ir, numth, intervals
 from ..ir import AnchorLost, callee_of, op_place, op_local, op_const, is_call_to
 from ..patterns import (calls_to, arg_slice, cmp_sites, cmp_reject_relation, slice_field_bases)
 
@@ -315,6 +315,20 @@ def r3_decoders(ctx):
                 good, how = False, ["extension decoder neither builds from checked coordinates nor delegates"]
         if deleg:
             how.append("delegates to %s" % sorted({r for _, _, rs in deleg for r in rs}))
+            # the value handed to the delegate is the input itself: a narrowing integer cast on the
+            # way drops high bits before the delegate's modulus check sees them
+            for bi, t, _ in deleg:
+                if not t["a"]:
+                    continue
+                sl = f.slice_of_operand(t["a"][0], at=(bi, f.INF))
+                for l in sl["locals"]:
+                    for d in f.defs(l):
+                        if d["kind"] == "assign" and d["rv"][0] == "cast" and d["rv"][1].startswith("IntToInt"):
+                            dst, src = intervals.type_range(d["rv"][3]), intervals.type_range(d["rv"][4])
+                            if dst and src and not (dst[0] <= src[0] and src[1] <= dst[1]):
+                                good = False
+                                how.append("the value is truncated (%s as %s at %s) before the delegate's range check" % (
+                                    d["rv"][4], d["rv"][3], ir.line_of(d["at"])))
         # Ok payload must come from one of these sources
         ctx.ob("R3", "decoder-rejects-noncanonical", good, "; ".join(how)[:400], f)
     # endianness: no *_be_bytes / *_ne_bytes in math/crypto/utils
